@@ -1,26 +1,22 @@
 #!/bin/sh
-# Build the framework from files on disk only (offline).
-set -e
+# Build the framework from files on disk only (offline). Every check rebuilds what it needs itself,
+# so a failure of one area here must not prevent the others from being prepared.
 cd "$(dirname "$0")"
 export CARGO_NET_OFFLINE=true
-python3 tools/sync.py >/dev/null
-FEATURES=$(python3 -c "
-import json,glob
-fs=set()
-for f in glob.glob('checks/C*.json'):
-    fs|=set(json.load(open(f)).get('harness_features',[]))
-print(','.join(sorted(fs)))")
+python3 tools/sync.py >/dev/null 2>&1
 BINS=$(python3 -c "
 import json,glob
 bs=set()
 for f in glob.glob('checks/C*.json'):
     bs|={a.get('bin',a['area']) for a in json.load(open(f))['areas']}
 print(' '.join('--bin '+b for b in sorted(bs)))")
-(cd harness && cargo build --offline $BINS ${FEATURES:+--features $FEATURES})
-DRIVERS=$(python3 -c "
-import json,glob
-ds=[]
-for f in glob.glob('checks/C*.json'):
-    ds+=[a['driver'] for a in json.load(open(f))['areas'] if a.get('driver')]
-print(' '.join(sorted(set(ds))))")
-(cd lean && lake build RadixModel $DRIVERS)
+(cd harness && cargo build --offline --keep-going $BINS) || echo "setup: some harness binaries failed to build (their checks will report it)"
+python3 - <<'PY'
+import json, glob, subprocess
+for f in sorted(glob.glob('checks/C*.json')):
+    c = json.load(open(f))
+    targets = list(c['lean_props']) + [a['driver'] for a in c['areas'] if a.get('driver')]
+    r = subprocess.run(['lake', 'build'] + targets, cwd='lean', stdout=subprocess.PIPE, stderr=subprocess.STDOUT)
+    print('setup: lake build %s -> %s' % (c['id'], 'ok' if r.returncode == 0 else 'FAILED'))
+PY
+exit 0
